@@ -143,8 +143,10 @@ func TestC02(t *testing.T) {
 		}
 		synctest.Test(t, func(t *testing.T) { c02SlowFirstProbes(t, run, k, desc) })
 	}
-	if desc := map[string]any{"kind": "redeploys-under-load"}; run.Mine(n+5000, desc) {
-		c02Load(t, run, desc)
+	for k := 0; k < run.N(1, 4); k++ { // the thorough tier repeats it: its reach is a matter of volume
+		if desc := map[string]any{"kind": "redeploys-under-load", "round": k}; run.Mine(n+5000+k, desc) {
+			c02Load(t, run, desc)
+		}
 	}
 	// redeploys that overlap (the later-issued one completes first): the replaced targets are taken
 	// away the moment each deploy returns, and still no client sees an error
